@@ -428,7 +428,7 @@ def gen_functions(run):
     for a in ("-2.5", "-0.25", "2.5", "-3", "0"):
         cases.append({"text": f"10 X={a}:X=INT(X):Y={a}:Y=INT(Y)+INT(Y)\n", "features": {"function", "result-into-operand", "fn:INT"}, "origin": f"X=INT(X) {a}"})
         cases.append({"text": f"10 X={a}:X=ABS(INT(X)):M(1)={a}:M(1)=INT(M(1))\n", "features": {"function", "result-into-operand", "fn:INT"}, "origin": f"X=ABS(INT(X)) {a}"})
-    for t in ('S$=STRING$(2,S$)', 'S$=HEX$(LEN(S$))', 'T=1:T=INSTR(T,S$,"C")', 'T$=STR$(VAL(T$))', 'X=3:X=VAL(T$)+X'):
+    for t in ('S$=STRING$(2,S$)', 'S$=HEX$(LEN(S$))', 'T=1:T=INSTR(T,S$,"C")', 'S$="CAC":T=2:T=INSTR(T,S$,"C")', 'S$="CAC":T=2:T=INSTR(T,S$,"C")+T', 'S$=STRING$(3,S$)+S$', 'T$=STR$(VAL(T$))', 'X=3:X=VAL(T$)+X'):
         cases.append({"text": f'10 S$="ABC":T$="12"\n20 {t}\n', "features": {"function", "result-into-operand"} | ({"fn:STR$"} if "STR$" in t else set()), "origin": t})
     # functions inside IF conditions: every branch form; thresholds on both sides of the Color BASIC value
     import math
